@@ -419,6 +419,60 @@ def zero_order(acc, fname, method, order):
             acc.violation('C08:Derivative:%s:zero-order' % prob[0], case, '%s: %s' % (head, prob[1]), size)
 
 
+def reentrant_args(acc, fname, method, n, order):
+    """The user function re-enters the SAME Derivative object with other extra arguments (a recursive definition such as
+    g(x, k) = ... d(x, k - 1) ...): every evaluation made by the outer call must still receive the outer call's
+    arguments, and the outer result must be bit-identical to the result of the call without the inner one."""
+    import numdifftools as nd
+    f = FUNCS[fname]
+    tags = [object(), object()]
+    st = {'depth': 0, 'n': 0, 'bad': 0, 'inner_done': False, 'nest': True}
+    x = np.array([0.3, 2.5, 11.0])
+
+    def g(t, k, tag=None):
+        want = 1 if st['depth'] == 0 else 0
+        if st['depth'] == 0:
+            st['n'] += 1
+        if k != want or tag is not tags[want]:
+            st['bad'] += 1
+        if st['nest'] and st['depth'] == 0 and st['n'] == 2 and not st['inner_done']:
+            st['inner_done'] = True
+            st['depth'] = 1
+            try:
+                d(x, 0, tag=tags[0])
+            finally:
+                st['depth'] = 0
+        return f(t)
+    case = dict(func=fname, method=method, n=n, order=order, kind='reentrant')
+    head = 'Derivative(g, method=%r, n=%d, order=%d), g calling the same object with other arguments' % (method, n, order)
+    fw.fresh_library_state()
+    acc.evaluations += 1
+    try:
+        with warnings.catch_warnings():
+            warnings.simplefilter('ignore')
+            with np.errstate(all='ignore'):
+                d = nd.Derivative(g, method=method, n=n, order=order)
+                nested = np.asarray(d(x, 1, tag=tags[1]))
+                bad_nested, n_nested = st['bad'], st['n']
+                st.update(depth=0, n=0, bad=0, inner_done=False, nest=False)
+                fw.fresh_library_state()
+                d = nd.Derivative(g, method=method, n=n, order=order)
+                plain = np.asarray(d(x, 1, tag=tags[1]))
+    except Exception as e:      # noqa: BLE001
+        acc.case((fname, method, n, order, 'reentrant'), nontrivial=True, cell=['reentrant/%s' % method], outcome='raised')
+        acc.violation('C08:Derivative:raised-%s:reentrant' % type(e).__name__, case, '%s raised %s: %s' % (head, type(e).__name__, e), 1)
+        return
+    prob = None
+    if bad_nested:
+        prob = ('args-not-forwarded', '%d of the %d evaluations of the outer call did not receive the outer call\'s arguments'
+                % (bad_nested, n_nested))
+    elif nested.shape != plain.shape or not np.all(bits_equal(nested, plain)):
+        prob = ('reentrant-value', 'result with the inner call %s, without %s' % (_txt(nested), _txt(plain)))
+    acc.case((fname, method, n, order, 'reentrant'), nontrivial=True, cell=['reentrant/%s' % method], outcome=prob is None, n_eval=0)
+    if prob:
+        acc.violation('C08:Derivative:%s:reentrant' % prob[0], case, '%s: %s' % (head, prob[1]), 1)
+
+
 def positions_for(shape, quick, seed):
     size = int(np.prod(shape)) if shape else 1
     pos = list(range(size))
@@ -461,6 +515,8 @@ def work(chunk, quick=True, seed=0, targets=None, rotations=None):
     for fname, method, n, order in chunk:
         if n == 1:
             zero_order(acc, fname, method, order)
+        if fname == FNAMES[0]:
+            reentrant_args(acc, fname, method, n, order)
         u = Unit(acc, fname, method, n, order)
         u.scalars()
         for shape in SHAPES:
@@ -495,7 +551,7 @@ def run(ctx):
     req += ['args/%s' % m for m in METHODS] + ['pattern/mixed', 'position/first', 'position/last',
                                                'position/inner']
     req += ['neighbours/real-step/%s' % c for c in ('finite', 'partial-nan', 'all-nan')]
-    req += ['zero-order/%s' % m for m in METHODS]
+    req += ['zero-order/%s' % m for m in METHODS] + ['reentrant/%s' % m for m in METHODS]
     req += ['layout/' + l for l in ('fortran', 'transposed-view', 'strided-view', 'reversed-view', 'nested-list', 'integer-dtype')]
     req += ['neighbours/%s/finite' % m for m in ('complex', 'multicomplex')]
     rule = ('%d shapes x 6 exactly-rounded elementwise functions x %d (method, n, order) configurations (5 methods, '
@@ -523,6 +579,10 @@ def run(ctx):
 
 def replay(case):
     acc = fw.Acc()
+    if case['kind'] == 'reentrant':
+        reentrant_args(acc, case['func'], case['method'], case['n'], case['order'])
+        bad = ['%s :: %s' % (k, r['detail']) for k, (n, recs) in sorted(acc.viol.items()) for r in recs[:1]]
+        return not bad, 'case=%r -> %s' % (case, bad or 'ok')
     if case['kind'] == 'zero-order':
         zero_order(acc, case['func'], case['method'], case['order'])
         bad = ['%s :: %s' % (k, r['detail']) for k, (n, recs) in sorted(acc.viol.items()) for r in recs[:1]]
